@@ -473,7 +473,7 @@ func recordHistory(t *testing.T, tw *tracelog.Writer, seed int64, nops, drainEve
 		// governance may authorise any spread factor in [0, 1): every fifth history runs with a large one (above one
 		// half the spread reward exceeds the amount that reaches the curve)
 		big := []osmomath.Dec{osmomath.MustNewDecFromStr("0.5"), osmomath.MustNewDecFromStr("0.51"), osmomath.MustNewDecFromStr("0.6"),
-			osmomath.MustNewDecFromStr("0.75"), osmomath.MustNewDecFromStr("0.95")}
+			osmomath.MustNewDecFromStr("0.75"), osmomath.MustNewDecFromStr("0.9")}
 		params.AuthorizedSpreadFactors = append(params.AuthorizedSpreadFactors, big...)
 		w.f = big[rng.Intn(len(big))]
 	}
